@@ -188,6 +188,12 @@ fn case(e: &E, pad: usize, ctx: &Ctx, width: usize, syntax: LuaVersion, sink: &m
         let tight = format!("{}{}{}", ctx.pre, e.lua_(pad, true), ctx.post);
         let back = parse(&tight, syntax).and_then(|a| extract(&a, ctx.name)).map(|x| sexp::of_ast(&x).abstracted());
         sink.q(format!("faithful {}", e.abstracted().sexp()), format!("{}", back.as_ref() == Some(&expected_tree)));
+        // validate Spec/Parser.lean (the token-level mirror of full_moon's expression parser): the tree
+        // full_moon reads from the tight printing must be the tree the mirror reads from the token list
+        // (`--` in the tight printing is a comment: a lexical effect the token-level mirror cannot see)
+        if ctx.entry != "prefix" && !tight.contains("--") {
+            sink.q(format!("parse {}", e.abstracted().sexp()), back.as_ref().map(|b| b.sexp()).unwrap_or_else(|| "none".into()));
+        }
     }
     let ast_in = match parse(&src, syntax) {
         Some(a) => a,
